@@ -32,11 +32,12 @@ class DeadPath(Exception):
 class Long(object):
     """content of a string of unknown (large) length: supports only len,
     identity and comparison with short strings"""
-    __slots__ = ('id', 'len')
+    __slots__ = ('id', 'len', 'prefix')
 
-    def __init__(self, id_, len_):
+    def __init__(self, id_, len_, prefix=()):
         self.id = id_
         self.len = len_
+        self.prefix = prefix   # the first bytes, explicit (the string is longer than the prefix)
 
 
 class VarS(object):
@@ -565,6 +566,7 @@ class Executor(object):
         self.trace_alloc = False
         self.pool_gets = 0
         self.in_pool = 0
+        self.pool_avail = {}
         self.escaping = None
         self.name_guards = 6
         self.split_max = 128
@@ -713,6 +715,27 @@ class Executor(object):
         if c is TRUE:
             return
         self.assumptions.append(c)
+
+    def feasible(self, guard):
+        """solver feasibility of a path condition under the assumptions made so far; used only to prune a path
+        that would otherwise end in Unsupported. 'unknown' keeps the path (returns True)."""
+        if guard is FALSE:
+            return False
+        import solve
+        roots = list(self.assumptions) + [guard]
+        text, _ = TM.smt_defs(roots)
+        sv = solve.Solver('z3', 20)
+        try:
+            sv.send(text)
+            for a in self.assumptions:
+                sv.send("(assert %s)" % TM.name(a))
+            st, _ = sv.check(TM.name(guard))
+            if sv.errors:
+                return True
+        finally:
+            sv.close()
+        self.stats['feasibility_queries'] = self.stats.get('feasibility_queries', 0) + 1
+        return st != 'unsat'
 
     def fresh(self, prefix, sort):
         self.nfresh += 1
@@ -1198,6 +1221,15 @@ class Executor(object):
             except DeadPath:
                 self.stats['dead_paths'] += 1
                 return
+            except Unsupported as e:
+                # before giving up: a path the rewriter could not recognise as dead may be infeasible
+                # (one solver query on the path condition; unknown keeps the path)
+                if getattr(e, 'checked', False) or act.guard is TRUE or self.feasible(act.guard):
+                    e.checked = True
+                    raise
+                self.stats['dead_paths'] += 1
+                self.stats['pruned_by_solver'] = self.stats.get('pruned_by_solver', 0) + 1
+                return
             if 'n' in ins:
                 act.env[ins['n']] = r
 
@@ -1538,7 +1570,20 @@ class Executor(object):
         idx = self.ev(act, ins['index'])
         w = idx.sort
         sg = self.is_signed(ins['index'].get('t', 'int'))
-        ics = [(g, signed(v, w) if sg else v) for g, v in self.int_cases(idx, 'index')]
+        if cases(idx) is None:
+            # not a small set syntactically (e.g. a shifted bit-field): split over the positions of the indexed
+            # object; anything else is out of range
+            if isinstance(x, Slc):
+                N = max([ln for g, o, off, ln, cap in x.alts] or [0])
+            else:
+                N = self.p.under(self.p.under(ins['x']['t'])['elem'])['len']
+            if N > 64:
+                raise Unsupported('symbolic index (not a small set) into %d elements: %s' % (N, pp(idx, 3)))
+            ics = [(Eq(idx, bv(i, w)), i) for i in range(N)]
+            ics = [(g, i) for g, i in ics if g is not FALSE]
+            self.oblige('bounds', And(act.guard, Not(Or(*[g for g, i in ics]))), 'index out of range [0,%d) (symbolic)' % N, ins)
+        else:
+            ics = [(g, signed(v, w) if sg else v) for g, v in self.int_cases(idx, 'index')]
         out = []
         if isinstance(x, Slc):
             for g, o, off, ln, cap in x.alts:
@@ -1589,6 +1634,8 @@ class Executor(object):
         res = []
         for g, c in x.alts:
             if isinstance(c, Long):
+                if not self.feasible(And(act.guard, g)):
+                    continue
                 raise Unsupported('index into unbounded string')
             if isinstance(c, VarS):
                 for gi, i in ics:
@@ -1639,7 +1686,25 @@ class Executor(object):
             alts = []
             for g, c in x.alts:
                 if isinstance(c, Long):
-                    raise Unsupported('slice of unbounded string')
+                    # only the explicit prefix can be cut: s[:h] with h <= len(prefix) (a short string), s[l:] with
+                    # l <= len(prefix) (again an unbounded string, identified by (id, l))
+                    for gl, l in (lo or [(TRUE, 0)]):
+                        for gh, h in (hi or [(TRUE, None)]):
+                            gg = And(g, gl, gh)
+                            if gg is FALSE:
+                                continue
+                            if l < 0 or (h is not None and h < l):
+                                self.oblige('bounds', And(act.guard, gg), 'string slice [%s:%s] out of range' % (l, h), ins)
+                                continue
+                            if l > len(c.prefix) or (h is not None and h > len(c.prefix)):
+                                if not self.feasible(And(act.guard, gg)):
+                                    continue
+                                raise Unsupported('slice of unbounded string beyond its explicit prefix')
+                            if h is None:
+                                alts.append((gg, Long((c.id, l), bvop('bvsub', c.len, bv(l, 64)), c.prefix[l:]) if l else c))
+                            else:
+                                alts.append((gg, c.prefix[l:h]))
+                    continue
                 if isinstance(c, VarS):
                     for gl, l in (lo or [(TRUE, 0)]):
                         for gh, h in (hi or [(TRUE, None)]):
@@ -1707,6 +1772,34 @@ class Executor(object):
             if not alts:
                 raise DeadPath()
             return Slc(fuse_alts(alts, slc_key))
+        if isinstance(x, RopeStr):
+            # prefix of a serialiser buffer: only through leading unconditional bytes
+            if lo not in (None, [(TRUE, 0)]) or hi is None or len(hi) != 1:
+                raise Unsupported('slice of a rope string other than a constant prefix')
+            h = hi[0][1]
+            # case analysis over the leading segments (each present or absent) until h bytes are fixed
+            done = []
+            work = [(TRUE, ())]
+            for g, bs in x.segs:
+                if not work:
+                    break
+                nxt = []
+                for pg, pb in work:
+                    for gg, nb in ((And(pg, g), pb + tuple(bs)), (And(pg, Not(g)), pb)):
+                        if gg is FALSE:
+                            continue
+                        if len(nb) >= h:
+                            done.append((gg, nb[:h]))
+                        else:
+                            nxt.append((gg, nb))
+                work = nxt
+                if len(work) + len(done) > 64:
+                    raise Unsupported('prefix of a rope string: too many segment combinations')
+            for pg, pb in work:
+                self.oblige('bounds', And(act.guard, pg), 'string slice [:%d] out of range (rope of %d bytes)' % (h, len(pb)), ins)
+            if not done:
+                raise DeadPath()
+            return Str(fuse_alts(done, str_key))
         raise Unsupported('slice of %r' % type(x))
 
     def i_makeslice(self, act, ins):
@@ -1910,7 +2003,7 @@ def stub_nondet_string(ex, args, guard, ins):
     ex.nlong += 1
     ex.inputs[nm] = {'kind': 'string', 'max': K, 'unbounded': True}
     alts = [(Eq(L, bv(k, 64)), bs[:k]) for k in range(K + 1)]
-    alts.append((bvcmp('ult', bv(K, 64), L), Long(ex.nlong, L)))
+    alts.append((bvcmp('ult', bv(K, 64), L), Long(ex.nlong, L, bs)))
     ex.assume(bvcmp('sle', bv(0, 64), L))
     return Str(alts)
 
@@ -1928,15 +2021,31 @@ def stub_alloccount(ex, args, guard, ins):
     tot = bv(0, 64)
     for ev in ex.alloc_events:
         g, site, fn, inpool = ev
-        if inpool:
+        if isinstance(inpool, T):
+            # allocation inside sync.Pool's New: it happens only when the pool was empty at that Get
+            g = And(g, inpool)
+            if g is FALSE:
+                continue
+        elif inpool:
             continue
         pos = site[3] if isinstance(site, tuple) and len(site) > 3 else ''
         fl = ':'.join(pos.split(':')[:3])
-        if ex.escaping is not None and fl not in ex.escaping:
-            continue
+        mult = 1
+        if ex.escaping is not None:
+            if fl in ex.escaping:
+                mult = ex.escaping[fl] if isinstance(ex.escaping, dict) else 1
+            elif site[2] == 'complit' and isinstance(ex.escaping, dict):
+                # go/ssa places a composite literal at its brace, the compiler reports the '&': match on the line
+                ln = ':'.join(pos.split(':')[:2]) + ':'
+                ms = [v for k, v in ex.escaping.items() if k.startswith(ln)]
+                if not ms:
+                    continue
+                mult = max(ms)
+            else:
+                continue
         if not pos.startswith('/repo/'):
             continue
-        tot = bvop('bvadd', tot, Ite(g, bv(1, 64), bv(0, 64)))
+        tot = bvop('bvadd', tot, Ite(g, bv(mult, 64), bv(0, 64)))
     return tot
 
 
@@ -1949,6 +2058,19 @@ def stub_allocs(ex, args, guard, ins):
         raise Unsupported('Allocs of a non-function')
     fn = ex.p.funcs[f.name]
     ex.run_function(fn, [], guard, f.bindings)
+    after = stub_alloccount(ex, [], guard, ins)
+    return bvop('bvsub', after, before)
+
+
+def stub_allocs_after(ex, args, guard, ins):
+    """verif.AllocsAfter(pre, f): number of heap allocations f performs when it runs right after pre
+    (pre's own allocations are not counted; what pre leaves behind - e.g. in a sync.Pool - is)"""
+    for a in args[:2]:
+        if not isinstance(a, Fn):
+            raise Unsupported('AllocsAfter of a non-function')
+    ex.run_function(ex.p.funcs[args[0].name], [], guard, args[0].bindings)
+    before = stub_alloccount(ex, [], guard, ins)
+    ex.run_function(ex.p.funcs[args[1].name], [], guard, args[1].bindings)
     after = stub_alloccount(ex, [], guard, ins)
     return bvop('bvsub', after, before)
 
@@ -2119,11 +2241,18 @@ def stub_pool_get(ex, args, guard, ins):
                 fnv = f
     if fnv is None:
         raise Unsupported('sync.Pool without New')
-    ex.in_pool += 1
+    # availability model (steady state): one object is in the pool when the harness starts (left there by the
+    # previous, balanced, call); Get takes one if there is one, else New allocates; Put returns one.
+    pid = _pool_id(args[0])
+    avail = ex.pool_avail.get(pid, bv(1, 64))
+    empty = Eq(avail, bv(0, 64))
+    old_in_pool = ex.in_pool
+    ex.in_pool = empty if not old_in_pool else old_in_pool
     try:
         v = ex.call_function(fnv.name, [], guard, ins)
     finally:
-        ex.in_pool -= 1
+        ex.in_pool = old_in_pool
+    ex.pool_avail[pid] = Ite(guard, Ite(empty, avail, bvop('bvsub', avail, bv(1, 64))), avail)
     ex.pool_gets += 1
     k = ex.pool_gets
     # havoc the contents of what New returned
@@ -2147,15 +2276,31 @@ def stub_pool_get(ex, args, guard, ins):
                     elif isinstance(e, T):
                         o.val.e[i] = var('pool%d_%d' % (k, i), e.sort)
         else:
+            # (a pointer to a pooled array used as an append buffer was tried: the generic slice model
+            # needs one alternative per length and does not finish; reported as unsupported instead)
             raise Unsupported('pool payload')
     return v
 
 
+def _pool_id(p):
+    try:
+        return tuple(sorted(o.id for g, o, pth, c in p.alts if o is not None))
+    except Exception:
+        return 'pool'
+
+
 def stub_pool_put(ex, args, guard, ins):
     v = args[1]
+    pid = _pool_id(args[0])
+    avail = ex.pool_avail.get(pid, bv(1, 64))
+    ex.pool_avail[pid] = Ite(guard, bvop('bvadd', avail, bv(1, 64)), avail)
     for g, tt, payload in v.alts:
         if isinstance(payload, Slc):
             for gs, o, off, ln, cap in payload.alts:
+                if o is not None:
+                    o.released = Or(o.released, And(guard, g, gs))
+        elif isinstance(payload, Ptr):
+            for gs, o, pth, c in payload.alts:
                 if o is not None:
                     o.released = Or(o.released, And(guard, g, gs))
     return None
@@ -2201,6 +2346,7 @@ STUBS = {
     'verifharness/verif.ByteBuf': stub_bytebuf,
     'verifharness/verif.AllocCount': stub_alloccount,
     'verifharness/verif.Allocs': stub_allocs,
+    'verifharness/verif.AllocsAfter': stub_allocs_after,
     'verifharness/verif.NondetBool': stub_nondet_bool,
     'verifharness/verif.NondetInt': stub_nondet_int,
     'verifharness/verif.NondetFloat64': stub_nondet_float,
